@@ -447,6 +447,48 @@ class Gen:
                 ops.append(op("iseq", V_(a), V_(b)))
         return ops
 
+    # ---- C07: a key array whose NESTED container is changed in place through another reference between two uses
+    def nested_key_history(self, nv=6):
+        r = self.rng
+        simple = lambda: r.choice([num(1), num(2), num(0), s(b"a"), s(b"A"), s(b"b"), TRUE, num(0.5), arr(num(1)), arr()])
+        inner0 = [simple() for _ in range(r.choice([0, 1, 2]))]
+        outer0 = [simple() for _ in range(r.choice([0, 0, 1]))]
+        add = simple()
+        ops = [op("newmap", 0), op("asg", 2, L_(('A', outer0)))]
+        use_map = r.random() < 0.3
+        if use_map:
+            ops.append(op("newmap", 3))
+            mk, mv = simple(), simple()
+            after, mutate = ('M', [(mk, mv)]), op("mset", V_(3), L_(mk), L_(mv))
+            undo = op("mdel", V_(3), L_(mk))
+        else:
+            ops.append(op("asg", 3, L_(('A', inner0))))
+            after, mutate = ('A', inner0 + [add]), op("pb", V_(3), L_(add))
+            undo = op("dela", V_(3), len(inner0))
+        if r.random() < 0.3:
+            ops += [op("asg", 4, L_(arr())), op("pb", V_(4), V_(3)), op("pb", V_(2), V_(4))]
+            after = ('A', [after])
+        else:
+            ops.append(op("pb", V_(2), V_(3)))
+        future = ('A', outer0 + [after])
+        noise = lambda: r.choice([op("count", V_(0)), op("keys", 5, V_(0)), op("get", V_(0), L_(simple())), op("in", L_(simple()), V_(0)),
+                                  op("iseq", V_(2), L_(future))])
+        if r.random() < 0.8: ops.append(op("mset", V_(0), L_(future), L_(s(b"future"))))
+        if r.random() < 0.7: ops.append(op("mset", V_(0), V_(2), L_(s(b"now"))))
+        for _ in range(r.choice([1, 1, 2])):          # read-only uses of the key object
+            ops.append(r.choice([op("get", V_(0), V_(2)), op("in", V_(2), V_(0)), op("mset", V_(0), V_(2), L_(s(b"now2"))),
+                                 op("mdel", V_(0), V_(2))]))
+            if r.random() < 0.3: ops.append(noise())
+        ops.append(mutate)
+        if r.random() < 0.3: ops.append(noise())
+        probes = [op("get", V_(0), V_(2)), op("in", V_(2), V_(0)), op("mset", V_(0), V_(2), L_(s(b"upd"))), op("get", V_(0), L_(future)),
+                  op("count", V_(0)), op("mdel", V_(0), V_(2)), op("count", V_(0)), op("iseq", V_(2), L_(future))]
+        r.shuffle(probes)
+        ops += probes[:r.choice([3, 5, 8])]
+        if r.random() < 0.4:
+            ops += [undo, op("get", V_(0), V_(2)), op("in", V_(2), V_(0)), op("count", V_(0))]
+        return ops
+
     # ---- C07: HashMap histories
     def map_history(self, nv=6, nops=30, nkeys=None):
         r = self.rng
